@@ -42,7 +42,7 @@ func c14Cases(tier string) int {
 	base := (c14Exhaustive() + c14PairsPerCase - 1) / c14PairsPerCase
 	switch tier {
 	case "thorough":
-		return base*len(gen.All14) + 50000/c14PairsPerCase
+		return base*len(gen.Data13) + 50000/c14PairsPerCase
 	case "race":
 		return base / 4
 	}
@@ -56,7 +56,7 @@ func init() {
 		Cases:          c14Cases,
 		Run:            c14Run,
 		Floor:          func(tier string) int { return 50000 },
-		Rule:           "bounded-exhaustive: every ordered pair of shapes of rank 0..4 with extents 1..4 (341^2 = 116281 pairs) through ops.MultidirectionalBroadcast and ops.UnidirectionalBroadcast, operands unique-valued so each output element identifies its source; quick rotates the element type over all 14 types by pair index, thorough repeats the whole space for each of the 14 element types plus 50000 random pairs of rank<=5, extents<=9. A pair is non-trivial when the two shapes differ (something is stretched, padded or must be rejected); distinct = distinct (helper-independent) (shapeA, shapeB, dtype) descriptors.",
+		Rule:           "bounded-exhaustive: every ordered pair of shapes of rank 0..4 with extents 1..4 (341^2 = 116281 pairs) through ops.MultidirectionalBroadcast and ops.UnidirectionalBroadcast, operands unique-valued so each output element identifies its source; quick rotates the element type over all 13 value-carrying types (String is probed separately) by pair index, thorough repeats the whole space for each of the 13 value-carrying element types plus 50000 random pairs of rank<=5, extents<=9. A pair is non-trivial when the two shapes differ (something is stretched, padded or must be rejected); distinct = distinct (helper-independent) (shapeA, shapeB, dtype) descriptors.",
 		Exhaustive:     func(tier string) bool { return true },
 		RaceInThorough: true,
 		Technique:      "runtime monitoring: bounded-exhaustive differential test of the real helpers against an independent index-map reference, with deep input fingerprints (sources unmodified)",
@@ -65,13 +65,16 @@ func init() {
 }
 
 func c14Run(c *Ctx) {
+	if c.Idx == 0 {
+		c14StringProbe(c)
+	}
 	nEx := c14Exhaustive()
 	exCases := (nEx + c14PairsPerCase - 1) / c14PairsPerCase
 	for k := 0; k < c14PairsPerCase; k++ {
 		var sa, sb []int
 		var dt ref.DType
 		switch {
-		case c.Idx < exCases*len(gen.All14) && (c.Tier == "thorough" || c.Idx < exCases):
+		case c.Idx < exCases*len(gen.Data13) && (c.Tier == "thorough" || c.Idx < exCases):
 			pass := c.Idx / exCases
 			pi := (c.Idx%exCases)*c14PairsPerCase + k
 			if c.Tier == "race" { // a quarter of the space, strided
@@ -82,9 +85,9 @@ func c14Run(c *Ctx) {
 			}
 			sa, sb = c14Shapes[pi/len(c14Shapes)], c14Shapes[pi%len(c14Shapes)]
 			if c.Tier == "thorough" {
-				dt = gen.All14[pass]
+				dt = gen.Data13[pass]
 			} else {
-				dt = gen.All14[(pi+int(c.Seed))%len(gen.All14)]
+				dt = gen.Data13[(pi+int(c.Seed))%len(gen.Data13)]
 			}
 		default:
 			sa = c.R.Shape(0, 5, 9, 400)
@@ -92,7 +95,7 @@ func c14Run(c *Ctx) {
 			if c.R.Chance(0.7) { // make them compatible more often
 				sb = compatibleWith(c.R, sa)
 			}
-			dt = gen.All14[c.R.Intn(len(gen.All14))]
+			dt = gen.Data13[c.R.Intn(len(gen.Data13))]
 		}
 		c14Pair(c, sa, sb, dt)
 	}
